@@ -209,26 +209,31 @@ CLAIMED['C17'] = dict(
 
 CLAIMED['C15'] = dict(
     text='Kernel-checked, for ANY number of threads, ANY number of transactions per thread, ANY schedule (pre-emption before every '
-         'operation: client-lock acquire, connect check, connect open, manager-lock acquire, tid++, connect, each of the two writes of '
-         'a frame, every poll, each recv, process, both releases) and a client that is connected OR NOT when the threads start, with '
-         'the lock discipline a parameter of the model. Under the shipped discipline (client lock around connect + transaction, manager '
-         'lock nested): C15_full (mutual_exclusion: at most one thread between its send and the end of its receive in every reachable '
-         'state; frames_contiguous; own_reply: every caller gets the reply built for its own request - its transaction id, unit and '
-         'data), results_in_request_order / finished_all_served (nothing lost, duplicated or swapped), connection_never_replaced, '
-         'no_deadlock, every_move_is_progress, fair_schedule_finishes (k rounds each giving every thread a turn, k >= total operations: '
-         'every thread finishes served), reentrant_acquire_never_blocks; by induction over the schedule with the invariant "holder of the '
-         'client lock = the only thread inside execute and the transport is exactly where its transaction left it". '
-         'generated_lock_scope: the source, read by ast on every run, has that discipline at both lock sites (transaction.py and '
-         'client/sync.py). Named mutants that do not serialise: connect_race_counterexample / connectOutside_not_serialised (the code '
-         'before the repair of connect-outside-lock), none / perKey / perKey_swap / sendOnly counterexamples. Real threads on the real '
-         'ModbusTcpClient (in-memory socket/select/time, both locks instrumented from outside) run under a deterministic cooperative '
-         'scheduler for all schedules of 2..4 threads x 1..3 transactions (DFS, capped) plus random schedules, each run checked against '
-         'the property directly and against the model.',
+         'operation: client-lock acquire, connect check, connect open, manager-lock acquire, tid++, connect, flush of the input, each '
+         'of the two writes of a frame, every poll, each recv, process, both releases), a client that is connected OR NOT when the '
+         'threads start, and ANY fate of the connection attempts (the k-th create_connection accepted or refused), with the lock '
+         'discipline a parameter of the model. Under the shipped discipline (client lock around connect + transaction, manager lock '
+         'nested): C15_full = Serialised (mutual_exclusion: at most one thread between its send and the end of its receive in every '
+         'reachable state; frames_contiguous; own_reply_or_refused: every caller gets the reply built for its own request - its '
+         'transaction id, unit and data - or, only when a connection attempt was refused, the connection exception; never a foreign '
+         'reply, never an error object) and NeverStuck (no_deadlock: some thread can always move; fair_schedule_finishes: k rounds each '
+         'giving every thread a turn, k >= total operations, end with every thread finished and every request answered); own_reply / '
+         'finished_all_served when every attempt succeeds; results_in_request_order, finished_all_answered, '
+         'connection_never_replaced, every_move_is_progress, reentrant_acquire_never_blocks; by induction over the schedule with the '
+         'invariant "holder of the client lock = the only thread inside execute and the transport is exactly where its transaction '
+         'left it". generated_lock_scope: the source, read by ast on every run, has that discipline at both lock sites. Named mutants '
+         'without the property: lock_leak_counterexample / leakOnFail_deadlocks (client lock not given back when the connect fails: '
+         'a deadlock; seeded C15-02), connect_race_counterexample / connectOutside_not_serialised (code before the repair of '
+         'connect-outside-lock), none / perKey / perKey_foreign_reply / sendOnly counterexamples. Real threads on the real '
+         'ModbusTcpClient (in-memory socket/select/time, scripted connection refusals, both locks instrumented from outside) run under '
+         'a deterministic cooperative scheduler for all schedules of 2..4 threads x 1..3 transactions (DFS, capped) plus random '
+         'schedules, each run checked against the property directly (deadlock included) and against the model.',
     design='6/C15', technique='Lean 4 invariant proof over schedules of a lock-parametric thread model + systematic schedule enumeration of the real code',
     note='Partial only in the sense of the design: pre-emption is exhibited at the yield points (every transport operation, every poll, '
          'lock acquire/release; the model allows it between any two operations); pre-emption inside a Python bytecode sequence and '
-         'GIL effects are not exhibited. The locks are observed from outside by replacing manager._transaction_lock and '
-         'client._connect_lock with instrumented wrappers around whatever objects the code created. Fixed finding: connect-outside-lock.')
+         'GIL effects are not exhibited. Connection failures are refusals of create_connection; a peer that stops answering is not '
+         'modelled here (C13). The locks are observed from outside by replacing manager._transaction_lock and client._connect_lock with '
+         'instrumented wrappers around whatever objects the code created. Fixed finding: connect-outside-lock.')
 
 PENDING_REASON = 'check not built yet in this revision (work in progress; planned per DESIGN.md section 6)'
 
